@@ -802,3 +802,52 @@ def r_setter_no_invented(cx):
               "%s builds the tuple it stores with a constant in it: an element the setter does not name (the epoch of a 4D tuple) "
               "is overwritten" % name, cx.where(bad[0]["span"]) if bad else cx.where(f.d["span"]))
     cx.count("R-SETTER-NO-INVENTED", "setters", n)
+
+
+@rule("R-ANGULAR-ACCESSORS", ["C19"])
+def r_angular_accessors(cx):
+    """The typed accessors `xy_to_degrees`, `xyz_to_arcsec`, `xyzt_to_radians` ... convert the two horizontal elements - both,
+    in the same way - and hand the others on: in each default method of CoordinateTuple named `*_to_<unit>`, the value
+    delivered for y is the value delivered for x with `x()` replaced by `y()`, and the 2-, 3- and 4-element variants of one
+    unit agree on it."""
+    import elems as E
+    n = 0
+    by_unit = {}
+    for name in sorted(cx.f.lib["fns"]):
+        tail = name.rsplit("::", 1)[-1]
+        if not (name.startswith("coordinate::tuple::CoordinateTuple::") and "_to_" in tail):
+            continue
+        f = cx.f.fn(name)
+        rt = E.return_term(f)
+        rt = mir.strip_refs(rt) if rt is not None else None
+        if not (rt is not None and rt[0] == "agg" and len(rt[2]) >= 2):
+            continue
+        n += 1
+
+        def ren(t):
+            if isinstance(t, tuple):
+                if t[0] == "call" and isinstance(t[1], str) and t[1].endswith("CoordinateTuple::x"):
+                    return ("call", t[1][:-1] + "y") + tuple(ren(z) for z in t[2:3]) + t[3:4]
+                return tuple(ren(z) for z in t)
+            return t
+
+        def strip_bb(t):
+            if isinstance(t, tuple):
+                if t[0] == "call" and len(t) > 3:
+                    return ("call", t[1], tuple(strip_bb(z) for z in t[2]))
+                return tuple(strip_bb(z) for z in t)
+            return t
+        ex, ey = strip_bb(mir.strip_refs(rt[2][0])), strip_bb(mir.strip_refs(rt[2][1]))
+        ok = strip_bb(ren(ex)) == ey
+        cx.ob("R-ANGULAR-ACCESSORS", tail, ok,
+              "%s converts x and y alike" % tail if ok else
+              "%s converts its first and its second element differently (%s / %s): the accessor disagrees with its siblings and "
+              "with the element-wise definition" % (tail, mir.show(rt[2][0], maxd=4)[:50], mir.show(rt[2][1], maxd=4)[:50]),
+              cx.where(f.d["span"]))
+        by_unit.setdefault(tail.split("_to_", 1)[1], []).append((tail, ex))
+    for unit, lst in sorted(by_unit.items()):
+        forms = {repr(e) for _, e in lst}
+        cx.ob("R-ANGULAR-ACCESSORS", "agree/%s" % unit, len(forms) == 1,
+              "the %d variants of *_to_%s convert the first element alike" % (len(lst), unit) if len(forms) == 1 else
+              "the variants of *_to_%s (%s) do not convert the first element alike" % (unit, ", ".join(t for t, _ in lst)))
+    cx.count("R-ANGULAR-ACCESSORS", "accessors", n)
